@@ -5,6 +5,7 @@ from itertools import product
 from vk.ref.evalx import UNDEF, Interp, Unsupported, const_value, domain_of, ev, ev2, holds, judge, objects_of, norm
 
 OKAY, INAPP, DONTCARE = "ok", "inapplicable", "dontcare"
+COINCIDING = "coinciding instances of one forall increase/decrease"
 
 
 def ground_fluents(problem, int_cap=12):
@@ -158,8 +159,13 @@ def expand_effect(problem, eff):
         yield {v.name: c for v, c in zip(vs, combo)}
 
 
-def succ(problem, s, action, args, check_invariants=True) -> Succ:
-    """Reference successor. args: python values of the action parameters."""
+def succ(problem, s, action, args, check_invariants=True, strict_forall=False) -> Succ:
+    """Reference successor. args: python values of the action parameters.
+
+    strict_forall: when two bindings of ONE forall increase/decrease hit the same ground fluent, the default is to
+    return DONTCARE (so that every property built on this semantics skips the case); C01, the property the
+    behaviour is attributed to, passes True and gets the literal reading (every binding accumulates) with the
+    feature "coinciding-forall-incdec" in info."""
     params = {p.name: v for p, v in zip(action.parameters, args)}
     I = Interp(problem, s, params)
     info = {"features": set()}
@@ -181,6 +187,7 @@ def succ(problem, s, action, args, check_invariants=True) -> Succ:
     deltas = {}  # key -> Fraction sum
     fl_types = {}
     srcs = {}  # key -> set of (value expression, binding) that produced the assignments
+    forall_hits = set()
     for eff in action.effects:
         if eff.forall:
             info["features"].add("forall")
@@ -213,6 +220,18 @@ def succ(problem, s, action, args, check_invariants=True) -> Succ:
             if eff.is_assignment():
                 assigns.setdefault(key, []).append(sv)
                 srcs.setdefault(key, set()).add((eff.value, tuple(sorted(binding.items()))) if not eff.value.is_constant() else eff.value)
+            elif eff.is_increase() or eff.is_decrease():
+                if binding:
+                    if (id(eff), key) in forall_hits:
+                        # two bindings of ONE forall increase/decrease hit the same ground fluent. Literal reading of C01:
+                        # every binding accumulates. The library agrees unless the variable disappears from the effect when
+                        # the ground action is simplified (known finding of C01); every other property skips the case.
+                        if not strict_forall:
+                            return Succ(DONTCARE, reason=COINCIDING)
+                        info["features"].add("coinciding-forall-incdec")
+                    forall_hits.add((id(eff), key))
+            if eff.is_assignment():
+                pass
             elif eff.is_increase():
                 deltas[key] = deltas.get(key, 0) + sv
                 deltas.setdefault(("#n", key), 0)
